@@ -33,4 +33,12 @@ for mod, oid, nid in ((C01, "C01-e.sign_finish_nonce_step", "C18.sm2_sign_ctx_no
     for o in mod.OBLIGATIONS:
         if o["id"] == oid:
             d = copy.deepcopy(o); d["id"] = nid; OBLIGATIONS.append(d)
+from obl import C17
+for nm, entry, title, units, defs in (
+        ("sm9_exch_fresh", "h_exch", "sm9_exch_step_1A/1B: the ephemeral secret rA / rB is the value drawn from the entropy source and RA / RB is computed from it", ["sm9_exch.c"], ["-DFRESH"]),
+        ("sm9_sign_fail_closed", "h_fail_closed", "sm9_do_sign reports failure when the entropy source fails at the first or second draw", ["sm9_sign.c"], ["-DOP=0"]),
+        ("sm9_kem_fail_closed", "h_fail_closed", "sm9_kem_encrypt reports failure when the entropy source fails at the first or second draw", ["sm9_enc.c"], ["-DOP=1"]),
+        ("sm9_exch1A_fail_closed", "h_fail_closed", "sm9_exch_step_1A reports failure when the entropy source fails", ["sm9_exch.c"], ["-DOP=2"]),
+        ("sm9_exch1B_fail_closed", "h_fail_closed", "sm9_exch_step_1B reports failure when the entropy source fails at the first or second draw", ["sm9_exch.c", "sm9_enc.c"], ["-DOP=3"])):
+    d = C17.proto(nm, entry, title, units, 13, defs); d["id"] = "C18." + nm; OBLIGATIONS.append(d)
 NOTE = "C18: randomised operations."
